@@ -4,6 +4,7 @@
 (* MC_SpecLaws, invariant NativeCopy) satisfies the declarative definition   *)
 (* of all eight modes for EVERY integer n (symbolic, Apalache / Z3) and every *)
 (* divisor of DSet.  Run: apalache-mc check --length=0 --inv=Laws AP_Round.tla *)
+(* (and --inv=Sticky: the single-rounding lemma of the div_rounded repair).   *)
 EXTENDS Integers
 
 VARIABLES
@@ -50,6 +51,15 @@ Declarative(q, mode) ==
      /\ (mode = "RoundHalfEven" => (nearest /\ (tie => q % 2 = 0)))
      /\ (mode = "Round05Up" => (IF n % d # 0 /\ (Abs(tz) % 10 = 0 \/ Abs(tz) % 10 = 5)
                                  THEN Abs(q) = Abs(tz) + 1 /\ (q >= 0 <=> n >= 0) ELSE q = tz))
+
+\* @type: (Int, Int) => Int;
+TDiv(a, b) == IF a >= 0 THEN a \div b ELSE 0 - ((0 - a) \div b)          \* Rust's truncating division, b > 0
+
+\* The sticky-bit lemma behind the repair of finding F2 (checked_div_rounded, dividend with more fractional digits than
+\* requested + divisor's): when n / d is inexact, rounding (2 * trunc(n / d) +- 1) / (2 * T) gives, in every mode, the same
+\* integer as rounding the exact quotient n / (d * T) once - for every integer n.
+Sticky == \A mode \in Modes : \A T \in {10, 100, 1000} :
+  (n % d # 0) => RoundQ(2 * TDiv(n, d) + (IF n >= 0 THEN 1 ELSE 0 - 1), 2 * T, mode) = RoundQ(n, d * T, mode)
 
 Init == n \in Int /\ d \in DSet
 Next == UNCHANGED <<n, d>>
